@@ -8,6 +8,7 @@ import KyupyVerif.Model.SimOps
 import KyupyVerif.Model.WaveCirc
 import KyupyVerif.Model.Capture
 import KyupyVerif.Model.MapCert
+import KyupyVerif.Proofs.Solve
 import KyupyVerif.Gen.Tables
 import KyupyVerif.Drv.Registry
 /-! Line protocol driver: one request per line on stdin, one answer per line on stdout.
@@ -230,6 +231,9 @@ def step (st : DState) (line : String) : DState × String :=
                            caps := (parseNats capsS).toArray, cLen := clenS.toNat!, capsMin := capsMin.toNat! }
         (st, match p.check with | none => "ok" | some e => "FAIL " ++ e)
       | _ => (st, "bad")
+  | ["wellordered", opsS] =>
+      let ops := (opsS.splitOn "/").filter (· ≠ "") |>.map WaveSimD.parseOp
+      (st, if KV.Sig.wellOrderedB ops then "ok" else "FAIL")
   | ["levelsok", startsS, opsS] =>
       let ops := (opsS.splitOn "/").filter (· ≠ "") |>.map WaveSimD.parseOp
       let lvls := KV.Sig.splitLevels ops (parseNats startsS)
